@@ -15,6 +15,8 @@ use serde::{Deserialize, Serialize};
 pub enum AnyGraph {
     Hist(HistCase),
     Graph(GraphCase),
+    /// a tiny multigraph with very many parallel edges on a pair
+    Heavy(HeavyCase),
 }
 
 pub struct C09;
@@ -35,15 +37,22 @@ pub fn realise(case: &AnyGraph, out: &mut Outcome) -> Option<(G, Model)> {
             }
             Some((g, m))
         }
-        AnyGraph::Graph(c) => {
-            let ng = c.norm();
-            let g = ng.build();
+        AnyGraph::Graph(_) | AnyGraph::Heavy(_) => {
+            let ng = match case {
+                AnyGraph::Graph(c) => c.norm(),
+                AnyGraph::Heavy(h) => {
+                    out.class("pair_with_very_many_parallel_edges");
+                    h.norm()
+                }
+                _ => unreachable!(),
+            };
+            let (g, attrs) = ng.build_a();
             let mut m = Model::new(ng.spec());
             for i in &ng.order {
                 m.nodes.push((ng.names[*i].clone(), Some(*i as i32)));
             }
-            for (i, j, w) in &ng.edges {
-                m.edges.push(MEdge { u: ng.names[*i].clone(), v: ng.names[*j].clone(), w: *w });
+            for ((i, j, w), a) in ng.edges.iter().zip(attrs) {
+                m.edges.push(MEdge { u: ng.names[*i].clone(), v: ng.names[*j].clone(), w: *w, a });
             }
             Some((g, m))
         }
@@ -51,15 +60,22 @@ pub fn realise(case: &AnyGraph, out: &mut Outcome) -> Option<(G, Model)> {
 }
 
 pub fn any_graph_strategy(max_len: usize) -> BoxedStrategy<AnyGraph> {
+    any_graph_strategy_w(max_len, 1)
+}
+
+/// `heavy_weight`: weight of the heavy-multiplicity class relative to 610 for the others together
+pub fn any_graph_strategy_w(max_len: usize, heavy_weight: u32) -> BoxedStrategy<AnyGraph> {
     fn me(n: usize) -> usize {
         n * 3 + 2
     }
     prop_oneof![
-        30 => gen::hist(max_len, &[0, 1, 1, 2]).prop_map(AnyGraph::Hist),
-        1 => gen::hist_big(&[0, 1, 2]).prop_map(AnyGraph::Hist),
-        20 => graph_strategy(&ALL_KINDS, 0, 9, me, &[0, 1, 1, 3, 8], 3).prop_map(AnyGraph::Graph),
+        300 => gen::hist(max_len, &[0, 1, 1, 2]).prop_map(AnyGraph::Hist),
+        10 => gen::hist_big(&[0, 1, 2]).prop_map(AnyGraph::Hist),
+        200 => graph_strategy(&ALL_KINDS, 0, 9, me, &[0, 1, 1, 3, 8], 3).prop_map(AnyGraph::Graph),
         // a few larger graphs, so that size-dependent behaviour is not out of reach
-        10 => graph_strategy(&ALL_KINDS, 10, 30, me, &[0, 1, 3], 3).prop_map(AnyGraph::Graph),
+        100 => graph_strategy(&ALL_KINDS, 10, 30, me, &[0, 1, 3], 3).prop_map(AnyGraph::Graph),
+        // a pair with hundreds or thousands of parallel edges (one case in ~400: they are slow)
+        heavy_weight => heavy_strategy().prop_map(AnyGraph::Heavy),
     ]
     .boxed()
 }
@@ -70,7 +86,7 @@ impl Prop for C09 {
         "C09"
     }
     fn rule(&self) -> String {
-        "graphs reached by C01 histories (all 96 specs, exhaustive block of length <= 3 plus random histories) and constructed graphs of all 8 kinds with self-loops, parallel edges and shuffled insertion order, dyadic weights. Oracle: counts over the model's node list N and edge list E: number_of_nodes/number_of_edges/size, per-node degree (self-loop adds 2), in/out degree, weighted variants, the *_for_all_nodes maps, handshake identities on the API's own outputs, None/WrongMethod on the other kind or an absent node, degree_centrality = deg/(n-1) for n >= 2, density of single-edge graphs, and the sparse adjacency matrix entry by entry (weight or 1, pattern, symmetry, WrongMethod on multi-edge graphs). Non-trivial = the graph has >= 2 edges and a self-loop, a parallel edge or an adjacent pair whose name order is the reverse of its insertion order; distinct = distinct serialised case.".into()
+        "graphs reached by C01 histories (all 96 specs, exhaustive block of length <= 3 plus random histories) and constructed graphs of all 8 kinds with self-loops, parallel edges and shuffled insertion order, dyadic weights. Oracle: counts over the model's node list N and edge list E: number_of_nodes/number_of_edges/size, per-node degree (self-loop adds 2), in/out degree, weighted variants, the *_for_all_nodes maps, handshake identities on the API's own outputs, None/WrongMethod on the other kind or an absent node, degree_centrality = deg/(n-1) for n >= 2, density of single-edge graphs, and the sparse adjacency matrix entry by entry (weight or 1, pattern, symmetry, WrongMethod on multi-edge graphs). Non-trivial = the graph has >= 2 edges and a self-loop, a parallel edge or an adjacent pair whose name order is the reverse of its insertion order; distinct = distinct serialised case. Name-type independence: for every graph of <= 12 nodes and one in eight up to 64 (34 for path-returning calls) the same calls are repeated with a user-defined node-name type (lossy Display, heavily colliding Hash, Ord unrelated to insertion order) and must give the same order-independent results as with String names (floats within 1e-9). One eligible case in four (a stored self-loop) is checked after clearing the public specs.self_loops flag on the live graph (the library reads it only in add_edge; stored loops remain edges). One case in ~600 is a tiny multigraph with a pair carrying a round number (2..8192: powers of two, powers of ten, their multiples and neighbours) of parallel edges.".into()
     }
     fn assumptions(&self) -> Vec<String> {
         vec![
@@ -89,9 +105,23 @@ impl Prop for C09 {
     }
     fn check(&self, case: &AnyGraph) -> Outcome {
         let mut out = Outcome::new();
-        let Some((g, m)) = realise(case, &mut out) else {
+        let Some((mut g, m)) = realise(case, &mut out) else {
             return out;
         };
+        // `specs` is a public field and the library consults `specs.self_loops` only when an edge
+        // is added: a caller may clear it on a live graph to refuse further self-loops. The stored
+        // self-loops are still edges of the graph, and the statement's identities ("a self-loop
+        // adds two to its node") are about stored edges. One eligible case in four is checked in
+        // that state.
+        let selector = match case {
+            AnyGraph::Hist(h) => h.ops.len() as u64 + h.spec as u64,
+            AnyGraph::Graph(c) => (c.perm / 8) as u64,
+            AnyGraph::Heavy(h) => h.groups.len() as u64,
+        };
+        if g.specs.self_loops && selector % 4 == 0 && m.edges.iter().any(|x| x.u == x.v) {
+            g.specs.self_loops = false;
+            out.class("self_loops_flag_cleared_on_live_graph");
+        }
         let d = m.spec.directed;
         let names = m.names();
         let n = names.len();
@@ -303,6 +333,9 @@ impl Prop for C09 {
             out.class("has_inverted_pair");
         }
         out.class(if all_weighted { "all_weighted" } else { "some_unweighted" });
+        if g.number_of_edges() <= 200 {
+            crate::altkey::maybe_check(&ng_from_graph(&g), crate::altkey::Group::Degrees, g.number_of_edges() as u64, &mut out);
+        }
         out.nontrivial = e.len() >= 2 && (has_loop || has_par || inverted);
         out
     }
